@@ -156,6 +156,57 @@ fn dump(s: &SessionDescription) -> String {
     )
 }
 
+/// the part of a description the Coq model decides: which section every line was attached to, the media
+/// lines, directions, flags and unknown attributes (field payloads only as present / count)
+fn shape(s: &SessionDescription) -> String {
+    let ms: Vec<String> = s
+        .media_descriptions
+        .iter()
+        .map(|m| {
+            let proto = match &m.media.proto {
+                TransportProtocol::Unspecified => "udp".to_string(),
+                TransportProtocol::RtpAvp => "RTP/AVP".to_string(),
+                TransportProtocol::RtpSavp => "RTP/SAVP".to_string(),
+                TransportProtocol::RtpSavpf => "RTP/SAVPF".to_string(),
+                TransportProtocol::Other(o) => format!("O:{}", hx(o)),
+            };
+            format!(
+                "M{{mt={};port={};pn={};proto={};fmts=[{}];dir={};c={};b={};rtcp={};rm={};fm={};uf={};pw={};cand={};eoc={};cr={};at=[{}]}}",
+                m.media.media_type,
+                m.media.port,
+                opt(&m.media.ports_num, |v| v.to_string()),
+                proto,
+                m.media.fmts.iter().map(|f| f.to_string()).collect::<Vec<_>>().join(","),
+                dir(&m.direction),
+                m.connection.is_some() as u8,
+                m.bandwidth.len(),
+                m.rtcp_attr.is_some() as u8,
+                m.rtpmaps.len(),
+                m.fmtps.len(),
+                m.ice_ufrag.is_some() as u8,
+                m.ice_pwd.is_some() as u8,
+                m.ice_candidates.len(),
+                m.ice_end_of_candidates as u8,
+                m.crypto.len(),
+                attrs(&m.attributes)
+            )
+        })
+        .collect();
+    format!(
+        "S{{name={};dir={};c={};b={};io={};lite={};uf={};pw={};at=[{}];M=[{}]}}",
+        hx(&s.name),
+        dir(&s.direction),
+        s.connection.is_some() as u8,
+        s.bandwidth.len(),
+        (!s.ice_options.options.is_empty()) as u8,
+        s.ice_lite as u8,
+        s.ice_ufrag.is_some() as u8,
+        s.ice_pwd.is_some() as u8,
+        attrs(&s.attributes),
+        ms.join(" ")
+    )
+}
+
 pub fn run(cases: &[Vec<String>]) {
     for case in cases {
         let id = case[0].clone();
@@ -199,5 +250,5 @@ fn run_txt(bytes: Vec<u8>) -> String {
         Ok(d) => dump(&d),
         Err(_) => "ERR".into(),
     };
-    format!("D1={}\tT2={}\tD2={}", dump(&d1), hex(printed.as_bytes()), d2)
+    format!("D1={}\tT2={}\tD2={}\tSH={}", dump(&d1), hex(printed.as_bytes()), d2, shape(&d1))
 }
